@@ -440,6 +440,8 @@ def _check_surface_result(cx: SurfCtx, seq, Rm, last_obs, Pex, callee, cls):
             lab = "total_area" if abs(t0 - t1) > 1e-9 * max(1.0, t0) else "area_per_plane"
             rep.violation(sub + "area", callee, "mismatch:" + lab, cls, cx.detail(seq, got=t1, want=t0))
         rep.count("area_clause_evaluated")
+        if cx.arity != "3":
+            rep.flag("area_clause_on_polygon_mesh")
     else:
         rep.count("area_clause_skipped_input_has_nonplanar_or_nonconvex_polygon")
     orc = SurfOracle(s["F"], n, s["E"])
@@ -1102,7 +1104,7 @@ def run_task(task, rep: Report):
 def finish(tier, rep: Report):
     fails = []
     for f in ("closed", "bordered", "arity3", "arity4", "arity5", "tet_shared_face", "tet_positive", "tet_sorted",
-              "polyline_disconnected", "sdb_split_something"):
+              "polyline_disconnected", "sdb_split_something", "quad_with_taken_diagonal", "area_clause_on_polygon_mesh"):
         if f not in rep.flags:
             fails.append("coverage flag missing: " + f)
     for kind in ("T", "TF", "FAN", "L", "Q3", "S6", "L2", "S6x2", "SDB", "CFAN", "FSPLIT", "split_edge"):
